@@ -8,7 +8,22 @@
    [idp] is get_id_pack (CPython's id() is outside the model: any function whose id packs are encodable).
    [POther k] is any object whose exact type is not in brine's registry: lists, dicts, functions, classes,
    modules and every instance of a subclass of int / str / tuple / frozenset / ... (enum members, named tuples).
-   [inv] is an invariant of every world reachable by well-behaved parties (theorem c03_histories). *)
+   [inv] is an invariant of every world reachable by well-behaved parties (theorem c03_histories).
+
+   WHAT IS EXCLUDED, and where it is stated.
+   (E1) One get_id_pack throughout: every theorem below speaks of histories in which the id packs of the objects that
+        are LENT do not change (c03_id_pack_may_change_when_not_lent: packs of objects that are not lent may change
+        freely).  The real get_id_pack reads the name and the class id from the object's CURRENT class, so reassigning
+        o.__class__ or renaming the class of a lent object changes its pack; on the current tree the clauses "same
+        proxy while alive" and "handed back = original" then FAIL: c03_one_proxy_refuted_when_id_pack_changes and
+        c03_echo_refuted_after_id_pack_change exhibit the history (known finding; the harness produces it).
+   (E2) Two parties, one connection.  Netrefs of another connection (three address spaces) are ordinary objects to
+        the model, keyed by whatever pack they carry; that two live objects of DIFFERENT address spaces never share a
+        pack is not provable (forked processes share layouts) and is a hypothesis wherever identity is claimed
+        (premise "no other live object has v's id pack" of c03_echo_identity_hops).  The harness runs a real
+        three-party chain with the oracle only.
+   (E3) pickle: obtain / deliver are proved only as plumbing (c03_obtain_deliver_plumbing_partial,
+        c03_deliver_then_operate_partial); "equal" is pickle's own contract and is checked by the harness oracle. *)
 From Coq Require Import String.
 From V Require Import lib.Base lib.Utf8 model.Ladder model.Brine proofs.BrineP proofs.BrineTie
   model.Box proofs.BoxP proofs.BoxTie gen.Gen_box gen.Gen_consts gen.Gen_brine.
@@ -49,22 +64,25 @@ Theorem c03_refs : forall P idp, idp_enc P idp -> forall from v w,
 Proof. intros P idp [A B] **. rewrite code_transfer_std. now apply refs_by_reference. Qed.
 Print Assumptions c03_refs.
 
-(* subclass instances are by-reference objects because the by-value test looks at the exact type *)
-Theorem c03_subclass_instances_are_references : forall mk k, N.even k = true -> byref mk (POther k).
+(* ENCODING FACTS (no content about the code by themselves): in the model's universe an instance of a subclass of a plain
+   type is a [POther] and therefore falls under c03_refs.  That the CODE treats such instances so is the generated fact
+   Gen_box.dumpable_tests_exact_types (c03_tie) together with the harness, which maps real objects to [POther] by exact
+   type and observes them arriving as references. *)
+Theorem c03_encoding_subclass_instances_are_byref : forall mk k, N.even k = true -> byref mk (POther k).
 Proof.
   intros mk k E. repeat split. unfold own_proxy, proxy_serial. rewrite <- N.negb_even, E. reflexivity.
 Qed.
-Print Assumptions c03_subclass_instances_are_references.
+Print Assumptions c03_encoding_subclass_instances_are_byref.
 
-(* ... and so is every frozenset / slice that is not built only from plain values (it holds an object somewhere) *)
-Theorem c03_containers_holding_objects_are_references : forall mk v,
+(* ... likewise every frozenset / slice that is not built only from plain values (it holds an object somewhere) *)
+Theorem c03_encoding_containers_holding_objects_are_byref : forall mk v,
   dumpable v = false -> (forall l, v <> PTuple l) -> (forall k, v <> POther k) -> byref mk v.
 Proof.
   intros mk v D T O. destruct v; try discriminate; try (repeat split; assumption || reflexivity).
   - exfalso. now apply (T l).
   - exfalso. now apply (O k).
 Qed.
-Print Assumptions c03_containers_holding_objects_are_references.
+Print Assumptions c03_encoding_containers_holding_objects_are_byref.
 
 (* 2'. exact tuples, mixing values and references at any nesting: sending the tuple is sending its items one
        after the other and tupling what arrives *)
@@ -165,43 +183,125 @@ Proof.
 Qed.
 Print Assumptions c03_dropped_then_fresh.
 
-(* 6. explicit copy transfer.  PARTIAL: pickle itself is an oracle (two functions and the hypothesis that a
-      pickle round trip gives an equal object with an id pack of its own).  What is proved is the plumbing:
-      obtain unpickles, at the caller, exactly the bytes pickled from the owner's original object, and nothing
-      is registered anywhere (the result is the caller's own object); deliver yields the proxy of a copy that
-      lives at, and is registered by, the other party. *)
+(* 6. explicit copy transfer.  PARTIAL, plumbing only: pickle is two uninterpreted functions and NOTHING is assumed
+      about them, so "equal" is not claimed here (it is pickle's contract; the harness oracle checks it on real objects).
+      What is proved: obtain unpickles, AT THE CALLER, exactly the bytes pickled from the owner's original object (the
+      very object stored under the proxy's key) and no table of either party changes, so the result is an object of the
+      caller's own and later operations on it are not requests at all; deliver yields the proxy of the object the OTHER
+      party unpickled from the bytes of v, registered in that party's table.
+      Full statement (not proved): obtain(p) == target(p) and deliver(c, v) refers to an object == v, both independent
+      of the original. *)
 Section Pickle.
 Variable pk_dumps : pyval -> list byte.
 Variable pk_loads : list byte -> pyval.
-Variable peq : pyval -> pyval -> Prop.
-Hypothesis pickle_round_trip : forall v, peq (pk_loads (pk_dumps v)) v.
 
-Theorem c03_obtain_deliver_partial : forall P idp, idp_enc P idp ->
-  (forall v, idp (pk_loads (pk_dumps v)) <> idp v) ->
+Theorem c03_obtain_deliver_plumbing_partial : forall P idp, idp_enc P idp ->
   (forall a n k rc obj c proto w,
      inv P idp w -> lookup k (cache (get w a)) = Some (n, rc) -> lookup k (ltab (get w (negb a))) = Some (obj, c) ->
      wf P (PInt proto) = true -> wf P (PBytes (pk_dumps obj)) = true ->
-     exists cp, obtain P Gen_box.box_ladder Gen_box.unbox_ladder idp pk_dumps pk_loads a n proto w = Ok (cp, w) /\
-                peq cp obj /\ idp cp <> idp obj) /\
+     obtain P Gen_box.box_ladder Gen_box.unbox_ladder idp pk_dumps pk_loads a n proto w = Ok (pk_loads (pk_dumps obj), w)) /\
   (forall a v w,
      inv P idp w -> wf P (PBytes (pk_dumps v)) = true ->
      let cp := pk_loads (pk_dumps v) in
      byref (made (get w (negb a))) cp -> wf P cp = true -> text_ok P cp = true ->
      exists w', deliver P Gen_box.box_ladder Gen_box.unbox_ladder idp pk_dumps pk_loads a v w =
                   Ok (fst (accept (idp cp) (get w a)), w') /\
-                peq cp v /\ idp cp <> idp v /\
                 lookup (idp cp) (ltab (get w' (negb a))) =
                   Some (match lookup (idp cp) (ltab (get w (negb a))) with Some (o, c) => (o, c + 1) | None => (cp, 0) end)).
 Proof.
-  intros P idp [A B] Fresh. rewrite tie_box_ladder, tie_unbox_ladder. split.
-  - intros a n k rc obj c proto w I C L W Wb. exists (pk_loads (pk_dumps obj)).
-    split; [now apply obtain_spec with (k := k) (rc := rc) (c := c)|]. split; [apply pickle_round_trip|apply Fresh].
+  intros P idp [A B]. rewrite tie_box_ladder, tie_unbox_ladder. split.
+  - intros a n k rc obj c proto w I C L W Wb. now apply obtain_spec with (k := k) (rc := rc) (c := c).
   - intros a v w I Wb cp Br W X. eexists. split; [now apply deliver_spec|].
-    split; [apply pickle_round_trip|]. split; [apply Fresh|].
     rewrite get_put2_same. cbn [ltab set_ltab]. apply lookup_coll_add_same.
 Qed.
+
+(* independence of the delivered copy, as far as the model can say it: an operation applied through the proxy that
+   deliver returned is applied to the object the other party unpickled (cp), at that party; nothing is applied at the
+   deliverer, where the original v lives *)
+Theorem c03_deliver_then_operate_partial : forall P idp, idp_enc P idp -> forall a v d w,
+  inv P idp w -> wf P (PBytes (pk_dumps v)) = true ->
+  let cp := pk_loads (pk_dumps v) in
+  byref (made (get w (negb a))) cp -> wf P cp = true -> text_ok P cp = true -> wf P (PInt d) = true ->
+  (forall o c, lookup (idp cp) (ltab (get w (negb a))) = Some (o, c) -> o = cp) ->
+  exists n w1 w2,
+    deliver P Gen_box.box_ladder Gen_box.unbox_ladder idp pk_dumps pk_loads a v w = Ok (POther (proxy_name n), w1) /\
+    mutate P Gen_box.box_ladder Gen_box.unbox_ladder idp a n d w1 = Ok w2 /\
+    mlog (get w2 (negb a)) = mlog (get w (negb a)) ++ [(cp, d)] /\
+    mlog (get w2 a) = mlog (get w a).
+Proof. intros P idp [A B] **. rewrite tie_box_ladder, tie_unbox_ladder. now apply deliver_then_mutate. Qed.
 End Pickle.
-Print Assumptions c03_obtain_deliver_partial.
+Print Assumptions c03_obtain_deliver_plumbing_partial.
+Print Assumptions c03_deliver_then_operate_partial.
+
+(* 5c. (E1) get_id_pack may answer differently from one step to the next, as long as the packs of the objects that
+       are lent at that moment stay what they were: the invariant, hence every theorem above, carries over *)
+Theorem c03_id_pack_may_change_when_not_lent : forall P idp idp' w,
+  (forall a k o c, lookup k (ltab (get w a)) = Some (o, c) -> idp' o = idp o) ->
+  inv P idp w -> inv P idp' w.
+Proof. exact inv_change_idp. Qed.
+Print Assumptions c03_id_pack_may_change_when_not_lent.
+
+(* ... and when the pack of a LENT object changes (its class is reassigned or renamed), the code as it is breaks the
+   clause "received again while a proxy for it is alive = that same proxy": the object arrives as a SECOND proxy while
+   the first is alive, and the owner's table holds it under two keys.  [idp_a]/[idp_b]: get_id_pack before/after. *)
+Definition idp_a (v : pyval) : idpack := match v with POther k => ([111%N], 1, Z.of_N (k mod 64) + 8) | _ => ([99%N], 1, 7) end.
+Definition idp_b (v : pyval) : idpack := match v with POther 4 => ([111%N; 114%N], 2, 12) | _ => idp_a v end.
+Lemma idp_a_enc : idp_enc (Pgen 4300) idp_a.
+Proof.
+  split; intros u; destruct u; try reflexivity.
+  cbn [idp_a pv_of_idpack wf forallb]. replace (is_imm (Z.of_N (k mod 64) + 8)) with true; [reflexivity|].
+  symmetry. unfold is_imm, IMM_LO, IMM_HI. pose proof (N.mod_upper_bound k 64). apply andb_true_iff. split; [apply Z.leb_le|apply Z.ltb_lt]; lia.
+Qed.
+Lemma idp_b_same u : u <> POther 4 -> idp_b u = idp_a u.
+Proof.
+  intros Hu. destruct u as [| | | | | | | | | | | |k]; try reflexivity.
+  destruct k as [|[[[]|[]|]|[[]|[]|]|]]; try reflexivity. now elim Hu.
+Qed.
+Lemma pyval_eq_4 (u : pyval) : {u = POther 4} + {u <> POther 4}.
+Proof. destruct u; try (right; discriminate). destruct (N.eq_dec k 4) as [->|N]; [now left|right; congruence]. Qed.
+Lemma idp_b_enc : idp_enc (Pgen 4300) idp_b.
+Proof.
+  destruct idp_a_enc as [A B]. split; intros u; (destruct (pyval_eq_4 u) as [->|N]; [reflexivity|rewrite (idp_b_same u N)]); auto.
+Qed.
+Theorem c03_one_proxy_refuted_when_id_pack_changes :
+  exists P v w1 p p' w2,
+    idp_enc P idp_a /\ idp_enc P idp_b /\ (forall u, u <> v -> idp_b u = idp_a u) /\ byref (made (get world0 true)) v /\
+    code_transfer P idp_a true v world0 = Ok (POther (proxy_name p), w1) /\ inv P idp_a w1 /\
+    code_transfer P idp_b true v w1 = Ok (POther (proxy_name p'), w2) /\
+    p' <> p /\
+    (exists rc rc', lookup (idp_a v) (cache (wb w2)) = Some (p, rc) /\ lookup (idp_b v) (cache (wb w2)) = Some (p', rc')) /\
+    (exists c c', lookup (idp_a v) (ltab (wa w2)) = Some (v, c) /\ lookup (idp_b v) (ltab (wa w2)) = Some (v, c')).
+Proof.
+  destruct idp_a_enc as [A B].
+  destruct (first_send_links (Pgen 4300) idp_a A B true (POther 4) world0 (inv0 _ _)) as (p & w1 & E & L);
+    [repeat split|reflexivity|reflexivity|intros o c H; discriminate|].
+  exists (Pgen 4300), (POther 4). rewrite !code_transfer_std.
+  assert (E' := E). vm_compute in E'. injection E' as Hp Hw.
+  assert (p = 0%N) by (destruct p as [|[]]; try discriminate; reflexivity). subst p.
+  exists w1, 0%N. subst w1.
+  exists 1%N. eexists. split; [split; assumption|]. split; [exact idp_b_enc|]. split; [exact idp_b_same|].
+  split; [repeat split|]. split; [exact E|]. split; [apply L|].
+  split; [vm_compute; reflexivity|].
+  split; [discriminate|]. split; [exists 1, 1|exists 0, 0]; vm_compute; split; reflexivity.
+Qed.
+Print Assumptions c03_one_proxy_refuted_when_id_pack_changes.
+
+(* ... and worse: dropping the FIRST proxy makes the owner release the entry of the SECOND (its _handle_del recomputes the
+   key from the object), so that handing the second, live, proxy back to the owner raises KeyError instead of yielding
+   the original object *)
+Theorem c03_echo_refuted_after_id_pack_change :
+  exists P v w1 w2 w3,
+    code_transfer P idp_a true v world0 = Ok (POther (proxy_name 0), w1) /\
+    code_transfer P idp_b true v w1 = Ok (POther (proxy_name 1), w2) /\
+    drop P Gen_box.box_ladder Gen_box.unbox_ladder idp_b false 0 w2 = Ok w3 /\
+    (exists rc, lookup (idp_b v) (cache (wb w3)) = Some (1%N, rc)) /\
+    code_transfer P idp_b false (POther (proxy_name 1)) w3 = Raise KeyError.
+Proof.
+  exists (Pgen 4300), (POther 4). rewrite !code_transfer_std, tie_box_ladder, tie_unbox_ladder.
+  eexists _, _, _. split; [vm_compute; reflexivity|]. split; [vm_compute; reflexivity|]. split; [vm_compute; reflexivity|].
+  split; [exists 1; vm_compute; reflexivity|vm_compute; reflexivity].
+Qed.
+Print Assumptions c03_echo_refuted_after_id_pack_change.
 
 (* 7. all orders of sending, echoing back, re-receiving, dropping and operating through proxies: no step of a
       history of well-behaved parties raises, and the invariant the theorems above assume holds throughout *)
@@ -225,10 +325,13 @@ Theorem c03_tie :
   Gen_box.id_pack_instance = ["name_pack"; "id(type(obj))"; "id(obj)"]%string /\
   Gen_box.id_pack_class = ["name_pack"; "id(obj)"; "0"]%string /\
   Gen_box.dumpable_tests_exact_types = true /\
-  Gen_box.obtain_is_loads_of_dumps = true /\ Gen_box.deliver_is_remote_loads_of_local_dumps = true.
+  Gen_box.obtain_is_loads_of_dumps = true /\ Gen_box.deliver_is_remote_loads_of_local_dumps = true /\
+  Gen_box.id_pack_netref_test_on_type = true /\ Gen_box.id_pack_undefined_names = [] /\
+  List.length Gen_box.id_pack_module_returns = 2%nat /\ List.length Gen_box.id_pack_module_names = 5%nat.
 Proof.
-  pose proof tie_box_ladder. pose proof tie_unbox_ladder. pose proof tie_labels as (L & _). pose proof tie_id_pack as (I1 & I2).
-  pose proof tie_exact_types as (E & _). pose proof tie_copy as (C1 & C2 & _). pose proof tie_counts. repeat split; auto.
+  pose proof tie_box_ladder. pose proof tie_unbox_ladder. pose proof tie_labels as (L & _). pose proof tie_id_pack as (I1 & I2 & _).
+  pose proof tie_exact_types as (E & _). pose proof tie_copy as (C1 & C2 & _).
+  pose proof tie_id_pack_guards as (G1 & G2 & G3 & G4 & G5). repeat split; auto; rewrite ?G4, ?G5; reflexivity.
 Qed.
 Print Assumptions c03_tie.
 
